@@ -76,9 +76,73 @@ def execute(S, d: dict, keep: list | None = None):
     return out
 
 
+class _Boom(Exception):
+    pass
+
+
+def _registry_fail(S, how):
+    """Calls into schwifty.registry that fail (on the unchanged tree: without touching anything)."""
+    import importlib  # noqa: PLC0415
+
+    reg = importlib.import_module("schwifty.registry")
+    try:
+        if how == "get_unknown":
+            reg.get("holiday")
+        elif how == "build_index_missing_key":
+            reg.build_index("bank", "bank_code", key="no_such_field_in_any_record", accumulate=True)
+        elif how == "manipulate_raises":
+            def boom(*a, **k):
+                raise _Boom("callback failed")
+
+            reg.manipulate("bank_code", boom)
+    except Exception as e:  # noqa: BLE001
+        return "failed:" + type(e).__name__
+    return "returned"
+
+
+def _reuse_kept(S, d, keep):
+    """Hand objects created earlier back to the constructors.  The return value does not depend on the objects."""
+    for o in list(keep or [])[-4:]:
+        try:
+            if isinstance(o, S.IBAN):
+                S.BBAN(d["other"], o.bban)
+                S.IBAN.from_bban(d["other"], o.bban, allow_invalid=True)
+                S.IBAN(o, allow_invalid=True)
+            elif isinstance(o, S.BIC):
+                S.BIC(o, allow_invalid=True)
+            elif isinstance(o, S.BBAN):
+                S.BBAN(d["other"], o)
+        except Exception:  # noqa: BLE001
+            pass
+    return "reused"
+
+
+_SHARED: dict = {}
+_SHARED_LOCK = threading.Lock()
+
+
+def _shared(S, d):
+    """One object per (class, text) and process, shared by every caller (threads, histories)."""
+    key = (d["cls"], d["text"])
+    with _SHARED_LOCK:
+        o = _SHARED.get(key)
+        if o is None:
+            o = _SHARED[key] = (S.IBAN if d["cls"] == "iban" else S.BIC)(d["text"], allow_invalid=True)
+    return o
+
+
 def _dispatch(S, d, keep):
     fn = d["fn"]
     kw = d.get("kw", {})
+    if fn == "shared_validate":
+        return _shared(S, d).validate(**kw)
+    if fn == "shared_read":
+        o = _shared(S, d)
+        return [_try(lambda a=a: getattr(o, a)) for a in d["attrs"]]
+    if fn == "reuse_kept":
+        return _reuse_kept(S, d, keep)
+    if fn == "registry_fail":
+        return _registry_fail(S, d["how"])
     if fn == "iban":
         o = S.IBAN(d["text"], **kw)
         if keep is not None:
